@@ -29,7 +29,7 @@ func TestVerifC02Seq(t *testing.T) {
 			if op[0] == "collectx" || op[0] == "tickx" || op[0] == "flushx" {
 				cfg.hooks = true
 			}
-			if op[0] == "ovltf" || op[0] == "ovlff" {
+			if op[0] == "ovltf" || op[0] == "ovlff" || op[0] == "ovlts" {
 				cfg.producers = true
 			}
 		}
@@ -55,7 +55,7 @@ func TestVerifC02Seq(t *testing.T) {
 		// collected, not yet exported), then Add(j, a, v), then ForceFlush while the first is still parked. ForceFlush is
 		// served by the run loop, so on this tree it waits for the first export whatever the load; if it completes while
 		// the first is still parked it did not go through the run loop (the records then show the inversion).
-		overlapped := func(i, r int, first func(), j, a int, v int64) {
+		overlapped := func(i, r int, first func(), j, a int, v int64, second func()) {
 			g := c02NewGate()
 			s.prods[r].set(g)
 			s.mu.Lock()
@@ -72,7 +72,7 @@ func TestVerifC02Seq(t *testing.T) {
 			if j < len(s.adders) {
 				s.adders[j](a, v)
 			}
-			go func() { _ = s.mp.ForceFlush(ctx); close(secondDone) }()
+			go func() { second(); close(secondDone) }()
 			select {
 			case <-secondDone:
 			case <-time.After(2 * time.Millisecond):
@@ -87,11 +87,42 @@ func TestVerifC02Seq(t *testing.T) {
 		}
 		i := -1
 		for _, op := range ops {
-			i++ // index in the EXPANDED history (ovltf / ovlff count as three operations: first, add, flush)
+			i++ // index in the EXPANDED history (ovltf / ovlff / ovlts count as three operations: first, add, flush / shutdown)
 			s.mu.Lock()
 			s.stamp = i
 			s.mu.Unlock()
 			switch op[0] {
+			case "ovlts":
+				// Shutdown of periodic reader r started while its interval export is parked between collecting and exporting
+				// (fine-grained reader LTS: Shutdown waits for the run loop, `<-r.done`, before its final collect): on this
+				// tree the interval export is delivered first, then the final one — the history tick r, add, rshut r.
+				r, j, a := atoi(op[1]), atoi(op[2]), atoi(op[3])
+				v, _ := strconv.ParseInt(op[4], 10, 64)
+				if r < len(s.readers) && s.ticks[r] != nil && !s.down[r] && s.prods[r] != nil {
+					overlapped(i, r, func() {
+						if st := s.tickStatus(r); st != "ok" {
+							status(i, r, st)
+						}
+					}, j, a, v, func() { _ = s.readers[r].Shutdown(ctx) })
+					s.down[r] = true
+				} else {
+					if r < len(s.readers) && s.ticks[r] != nil && !s.down[r] {
+						if st := s.tickStatus(r); st != "ok" {
+							status(i, r, st)
+						}
+					}
+					if j < len(s.adders) {
+						s.adders[j](a, v)
+					}
+					s.mu.Lock()
+					s.stamp = i + 2
+					s.mu.Unlock()
+					if r < len(s.readers) {
+						_ = s.readers[r].Shutdown(ctx)
+						s.down[r] = true
+					}
+				}
+				i += 2
 			case "ovltf", "ovlff":
 				r, j, a := atoi(op[1]), atoi(op[2]), atoi(op[3])
 				v, _ := strconv.ParseInt(op[4], 10, 64)
@@ -102,9 +133,9 @@ func TestVerifC02Seq(t *testing.T) {
 						if st := s.tickStatus(r); st != "ok" {
 							status(i, r, st)
 						}
-					}, j, a, v)
+					}, j, a, v, func() { _ = s.mp.ForceFlush(ctx) })
 				case alive:
-					overlapped(i, r, func() { _ = s.mp.ForceFlush(ctx) }, j, a, v)
+					overlapped(i, r, func() { _ = s.mp.ForceFlush(ctx) }, j, a, v, func() { _ = s.mp.ForceFlush(ctx) })
 				default:
 					// not applicable: the same operations one after the other
 					if op[0] == "ovltf" {
@@ -351,6 +382,11 @@ func TestVerifC02Seq(t *testing.T) {
 				case 2:
 					ops = append(ops, []string{"col", strconv.Itoa(r.Intn(len(rs)))})
 				}
+			}
+			if c%3 == 0 {
+				// Shutdown of the periodic reader overlapping its own interval export
+				a := add()
+				ops = append(ops, []string{"ovlts", strconv.Itoa(pr), a[1], a[2], a[3]})
 			}
 			for k := range rs {
 				ops = append(ops, []string{"col", strconv.Itoa(k)})
